@@ -8,6 +8,7 @@ frames.  Correspondence: the whole run replayed by driver_deribit (`bars`), comp
 from __future__ import annotations
 
 import copy
+import warnings
 from decimal import Decimal
 from fractions import Fraction
 from types import SimpleNamespace
@@ -562,6 +563,25 @@ def oracle(ctx, sc, rec, balances, prices, rep):
             v("settlement-records-without-settlement", f"minute {now}: {[a['type'] for a in upd_actions]}")
         if post["wallet"] != pre["wallet"]:
             v("settlement-touched-wallet", f"minute {now}")
+        # ---- positions opened after update() (after_bar / notify): `C16_barX_due_survivor_was_opened_by_a_late_hook` — a due position at the
+        # end of an on-grid bar did not exist (as that record) after update(), a late call named its key and was accepted, and the bar's data
+        # lists the instrument as open; it is settled by the next on-grid bar (checked there through `due`)
+        final = bar.get("final")
+        if on_grid and final is not None:
+            late_ok = set(o["op"].get("name") for o in bar["ops"] if o["phase"] in ("after", "notify") and o["op"]["type"] == "buy" and o["out"] == "ok")
+            for p in final["positions"]:
+                if p["expiry"] <= now:
+                    row = row_at(sc, now, p["name"]) if hour_present(sc, now) else None
+                    listed = row is not None and row["state"] == "open"
+                    if p in post["positions"]:
+                        v("due-position-left-after-on-grid-bar", f"{p['key']} (expiry minute {p['expiry']}) is still held at the end of the on-grid bar at minute {now}")
+                    elif p["key"] not in late_ok or not listed:
+                        v("due-position-at-bar-end-not-from-a-late-hook", f"{p['key']} (expiry minute {p['expiry']}) is held at the end of minute {now}; "
+                          f"late buys accepted: {sorted(late_ok)}, instrument listed as open: {listed}")
+                    else:
+                        ctx.case(f"late-hook:{sc['interval']}:expired-instrument-bought-after-update:{'settling-bar' if any(q['key'] == p['key'] for q in due) else 'later-bar'}",
+                                 {"minute": now, "position": L.canon(p)})
+                        ctx.count("due_positions_opened_by_late_hooks")
     ctx.count("positions_settled", sum(expired_seen.values()))
 
 
@@ -675,6 +695,37 @@ def directed():
     return out
 
 
+def late_hooks():
+    """D-2: the expired instrument is still listed as open on the first on-grid bar at/after its expiry and the strategy buys it there from
+    after_bar / notify — after that bar's update().  The held position is settled in that bar (one record); the late-bought one survives it and
+    is settled by the next on-grid bar (a second record): `C16_late_hook_buy_is_settled_one_bar_late`.  With the row gone at expiry the late buy
+    is refused (`C16_runX_settles_exactly_once`)."""
+    out = []
+    for interval in ("1min", "1h"):
+        for phase in ("after", "notify"):
+            for gone in (False, True):
+                for expiry in (60, 75):
+                    kind, strike, S = "CALL", 1600, 1651.94
+                    name = f"ETH-L-{strike}-C"
+                    i = {"name": name, "kind": kind, "strike": strike, "expiry": expiry, "exp_cls": "late-hook", "gone": gone, "path": [(S, 0.0479)] * 4}
+                    hours = []
+                    for h in range(4):
+                        rows = [{"name": "ETH-OTHER-9999-C", "state": "open", "kind": "CALL", "strike": 9999, "expiry": 10 ** 6, "mark": 0.001,
+                                 "underlying": 2000.0, "delta": 0.1, "gamma": 0.001, "asks": [[0.0015, 10]], "bids": [[0.0005, 10]]}]
+                        if not (gone and 60 * h >= expiry):
+                            rows.append({"name": name, "state": "open", "kind": kind, "strike": strike, "expiry": expiry, "mark": 0.0479, "underlying": S,
+                                         "delta": 0.5, "gamma": 0.001, "asks": [[0.05, 145]], "bids": [[0.045, 70]]})
+                        hours.append((60 * h, rows))
+                    settle = 60 if expiry == 60 else 120
+                    ops = [{"type": "buy", "name": name, "amount": 2, "phase": phase}]
+                    if phase == "notify":
+                        ops.insert(0, {"type": "deposit", "amount": Decimal("0.005")})
+                    out.append({"interval": interval, "n_hours": 4, "tick": 200000, "instrs": [i], "hours": hours,
+                                "positions": [{"name": name, "expiry": expiry, "strike": strike, "kind": kind, "amount": "2"}],
+                                "script": {settle: ops}, "cash": "5", "wallet": "10"})
+    return out
+
+
 def coarse_gap():
     """interval 2h / 4h, a whole coarse bar without option data inside the life of the instrument, an in-the-money call that expires in the gap:
     it settles at the first on-grid bar at or after expiry -- the gap bar -- against the token price (the row is absent there)"""
@@ -740,7 +791,9 @@ def zero_underlying_steps(ctx, reqs):
             rig = L.Rig(book, now=now, cash=Decimal(1), positions=positions, price=price)
             S = L.dump_state(rig)
             n0 = len(rig.actions)
-            out, res = L.apply_op(rig, {"type": "update"})
+            with warnings.catch_warnings():
+                warnings.simplefilter("ignore")          # numpy: divide by zero encountered in scalar divide
+                out, res = L.apply_op(rig, {"type": "update"})
             S2 = L.dump_state(rig)
             acts = [L.dump_action(a) for a in rig.actions[n0:]]
             raises = variant in ("float-row", "decimal-price", "float-price", "first-zero")
@@ -760,7 +813,7 @@ def zero_underlying_steps(ctx, reqs):
 
 def run(ctx: Ctx):
     reqs = []
-    scs = (directed() + coarse_gap() + [first_hour_missing()]) if not ctx.search else []
+    scs = (directed() + late_hooks() + coarse_gap() + [first_hour_missing()]) if not ctx.search else []
     n = ctx.scale(26, 800)
     for _ in range(n):
         scs.append(gen_scenario(ctx.rng))
